@@ -158,7 +158,8 @@ def instances(tier, seed):
     # a template whose constraints shift time-dependent expressions by whole intervals (the shifted expression refers to the template's time)
     from ..dsl import offset
     tpl_off = stage_model(0)
-    tpl_off.cons = list(tpl_off.cons) + [Con('<=', offset(X(0) * t, 1) - X(0), 4), Con('>=', offset(X(1) + t, -1), X(0) - 6)]
+    tpl_off.cons = list(tpl_off.cons) + [Con('<=', offset(X(0) * t, 1) - X(0), 4), Con('>=', offset(X(1) + t, -1), X(0) - 6),
+                                       Con('<=', X(1) * t, 6, include_first=False), Con('>=', X(0) + X(1), -8, include_last=False)]      # (placement flags travel with the clone)
     add(kind='clone', desc=dict(stages=[dict(spec=tpl_off, cfg=cfgs[0], t0=hz[2][0], T=hz[2][1], clone_of='tpl', pvals={}),
                                         dict(spec=stage_model(1), cfg=cfgs[1], t0=hz[0][0], T=hz[0][1], clone_of=None)], coupling=[('cont', 0, 1), ('wge', 0)], parent=[('w2',)]))
     # a template with an explicitly declared quadrature state and DT / DT_control in its constraints
@@ -166,7 +167,8 @@ def instances(tier, seed):
     tpl_q = stage_model(0)
     tpl_q.quads = [X(0) * X(0) + t]
     tpl_q.objective = list(tpl_q.objective) + [at_tf(Q(0))]
-    tpl_q.cons = list(tpl_q.cons) + [Con('<=', X(1) * DTc, 5), Con('>=', X(0) * DT, -7, grid='integrator')]
+    tpl_q.cons = list(tpl_q.cons) + [Con('<=', X(1) * DTc, 5), Con('>=', X(0) * DT, -7, grid='integrator'),
+                                   Con('<=', X(1) - t, 9, grid='integrator', include_first=False, include_last=False)]
     add(kind='clone', desc=dict(stages=[dict(spec=tpl_q, cfg=cfgs[0], t0=hz[0][0], T=hz[0][1], clone_of='tpl', pvals={}),
                                         dict(spec=stage_model(1), cfg=cfgs[3], t0=hz[2][0], T=hz[2][1], clone_of=None)], coupling=[('cont', 0, 1), ('wge', 0)], parent=[('w2',)]))
     # seeded random stage contents (model, constraint set, objective, guesses): direct and cloned
